@@ -11,6 +11,7 @@ import (
 	"math"
 	"os"
 	"reflect"
+	"runtime"
 	"sort"
 	"strconv"
 	"strings"
@@ -878,6 +879,12 @@ func c40J2(v any) string {
 }
 
 func TestVerif_C40_OM(t *testing.T) {
+	// Go 1.25.0 allocates the synctest "bubble special" of a WaitGroup without holding mheap_.speciallock
+	// (runtime.getOrSetBubbleSpecial): first Add calls running in parallel on several Ps (every dial of a
+	// rueidis connection does one) corrupt the span's specials list, which ends in "fatal error: sync:
+	// WaitGroup.Add called from multiple synctest bubbles" or in a GC worker spinning for ever in
+	// markrootSpans. One P serialises those calls.
+	defer runtime.GOMAXPROCS(runtime.GOMAXPROCS(1))
 	c := stat.For("C40", "om-save-fetch").Rule("histories of 2-10 steps over two entity slots on om.NewHashRepository (struct with every kind of the hash converter table: string, int64, bool, time.Time, nested struct, *string, *int64, *bool, *struct, []byte, []float32, []float64, []struct, untagged field, key/ver/exat tags) or om.NewJSONRepository (the same plus int/uint widths, floats, *float64, []string, []int, map, array): NewEntity(+custom id)/Save, Save of changed fields, Fetch or FetchCache, 1-5 concurrent Saves of copies of the current entity at equal or staggered virtual instants, Save from an outdated copy, Remove; values include empty strings, non-UTF-8 bytes (hash strings, []byte), int64/float extremes, nil/non-nil pointers, nil/empty slices; server latency 0-1 ms; oracle: per base version at most one concurrent Save succeeds and the others are ErrVersionMismatch, outdated copies are rejected, a successful Save advances the in-memory version by exactly one and the stored version (HGET / JSON.GET by another client) equals it, Fetch/FetchCache equals the last successfully saved entity (nil == empty), the hash holds every field; non-trivial = >= 2 concurrent Saves on one base version or a non-UTF-8 / extreme numeric field value")
 	defer c.Flush()
 	rapid.Check(t, func(rt *rapid.T) {
